@@ -7,7 +7,7 @@ import subprocess
 import time
 from concurrent.futures import ThreadPoolExecutor
 
-from common import (LAUNCH, NCPU, HarnessError, Rng, cleanup_run_dir, derive, log, run_dir, shim_env,
+from common import (discovered_env_reads, discovered_env_value, LAUNCH, NCPU, HarnessError, Rng, cleanup_run_dir, derive, log, run_dir, shim_env,
                     short_hash, sim_bin, write_evidence, write_replay, VERIF)
 
 SIM_TIMEOUT_S = 25
@@ -18,8 +18,21 @@ def entry_class(entry):
     return "noop" if entry in ("parse", "noop") else entry
 
 
+PAD_MARK = "\x00\x00PAD="
+
+
 def job_key(job, cls=None):
-    return (job["variant"], job["rule"], job["input"], tuple(job.get("ctx", [0, 0])), cls or entry_class(job["entry"]))
+    # a padded job (volume probe) is another input than its head alone: the padding is part of the key
+    inp = job["input"] + (PAD_MARK + str(job["pad_to"]) if job.get("pad_to") else "")
+    return (job["variant"], job["rule"], inp, tuple(job.get("ctx", [0, 0])), cls or entry_class(job["entry"]))
+
+
+def key_input(k):
+    """(input, pad_to) of an oracle key."""
+    i = k[2].rfind(PAD_MARK)
+    if i >= 0 and k[2][i + len(PAD_MARK):].isdigit():
+        return k[2][:i], int(k[2][i + len(PAD_MARK):])
+    return k[2], 0
 
 
 def truncate_utf8(s, nbytes):
@@ -77,7 +90,7 @@ class ParseSim:
                 chars[rng.below(len(chars))] = rng.choice(g["tokens"])
         if not g.get("custom_ws") and rng.coin(120):
             # a run of 8..20 blank-like characters (real whitespace and control characters that are not) at a seeded place
-            run = "".join(rng.choice([" ", " ", " ", "\t", "\n", "\r", "\x0c", "\x0b", "\x00", "\x1f"]) for _ in range(rng.range(8, 20)))
+            run = "".join(rng.choice([" ", " ", " ", "\t", "\n", "\r", "\x0c", "\x0b", "\x00", "\x1f", "\u00a0", "\u2003", "\u2028", "\u3000", "\u0085"]) for _ in range(rng.range(8, 20)))
             pos = rng.below(len(chars) + 1)
             return self.clamp(g, "".join(chars[:pos]) + run + "".join(chars[pos:]), limit=64)
         return self.clamp(g, "".join(chars))
@@ -218,8 +231,27 @@ class ParseSim:
         return [q], [v["name"]]
 
 
+    def bulk_plan(self, i, rng):
+        """Volume probe: one thread hands more than 2^32 bytes to the parsers of the process (rules that read only the
+        head of their input), with ordinary jobs before, in between and after."""
+        vs = self.by_grammar["head"]
+        full = max(vs, key=lambda v: v["mask"])
+        pad, rep = rng.choice([(1 << 28, 17), (1 << 27, 34), (3 << 26, 23)])
+        small = [{"variant": rng.choice(vs)["name"], "rule": "Head", "input": self.gen_input(rng, "head"), "ctx": [0, 0], "entry": "parse", "align": 0} for _ in range(4)]
+        big = {"variant": full["name"], "rule": "Head", "input": "ab 12;c", "ctx": [0, 0], "entry": "parse", "align": 0, "pad_to": pad}
+        half = dict(big, repeat=rep // 2)        # 2^31 is crossed inside this job
+        rest = dict(big, repeat=rep - rep // 2)  # 2^32 inside this one
+        other = rng.choice([v for v in self.variants if v["grammar"] in ("calc", "stmt", "twins")])
+        oj = {"variant": other["name"], "rule": other["exported"][0], "input": self.gen_input(rng, other["grammar"]), "ctx": [0, 0], "entry": "parse", "align": 0}
+        sim_seed = rng.next()
+        return {"id": i, "sim_seed": sim_seed, "entropy": sim_seed >> 1, "reuse_buffer": False, "aged": False, "many_parses": False, "bulk": True,
+                "env": {}, "policy": {"kind": "rtc", "preempt_steps": []}, "start_at": [0], "fresh_threads": False, "deep": False,
+                "tasks": [[small[0], oj, half, small[1], dict(oj), rest, small[2], dict(oj), small[3]]]}
+
     def plan_c20(self, i):
         rng = Rng(derive(self.seed, "c20", i))
+        if i % 1000 == 5 and i < 4000 and "head" in self.grammars:
+            return self.bulk_plan(i, rng)
         ntasks = rng.weighted([(2, 30), (3, 30), (4, 20), (5, 10), (6, 10)])
         gnames = sorted(self.grammars)
         focus = rng.coin(700)
@@ -293,10 +325,15 @@ class ParseSim:
             tasks, vs = self.many_parses_tasks(rng, gnames)
             ntasks = 1
         sim_seed = rng.next()
+        env = {"RUST_MIN_STACK": rng.choice(["131072", "262144", "1048576", "33554432"])} if rng.coin(250) else {}
+        for name, lits in discovered_env_reads():
+            # variables the working tree reads at run time (the isolated runs have none of them)
+            if rng.coin(400):
+                env[name] = discovered_env_value(rng, lits)
         plan = {
             "id": i, "sim_seed": sim_seed, "entropy": sim_seed >> 1,
             "reuse_buffer": rng.coin(400), "aged": aged, "many_parses": many,
-            "env": ({"RUST_MIN_STACK": rng.choice(["131072", "262144", "1048576", "33554432"])} if rng.coin(250) else {}),
+            "env": env,
             "policy": {"kind": "random", "switch_permille": rng.choice([2, 5, 20])} if deep_sim else self.gen_policy(rng, ntasks, est, vs),
             "start_at": [0] * ntasks if (deep_sim or aged or many) else [0 if rng.coin(600) else rng.below(max(est // 2, 1)) for _ in range(ntasks)],
             "fresh_threads": rng.coin(300) and not (aged or many),
@@ -406,7 +443,7 @@ class ParseSim:
         """Isolated results: each job as the only parse of a fresh single-threaded process."""
         missing = sorted(k for k in set(keys) if k not in self.iso)
         # the isolated process gets its own seeded entropy (hash seeds), different from that of any simulation
-        lines = [json.dumps({"variant": k[0], "rule": k[1], "input": k[2], "ctx": list(k[3]), "entry": k[4],
+        lines = [json.dumps({"variant": k[0], "rule": k[1], "input": key_input(k)[0], "pad_to": key_input(k)[1], "ctx": list(k[3]), "entry": k[4],
                              "entropy": derive(self.seed, "iso", *k) >> 2}, ensure_ascii=False) for k in missing]
         outs = self._batch("oracle", lines, ORACLE_TIMEOUT_S, NCPU)
         self.oracle_spawns += len(lines)
